@@ -166,6 +166,14 @@ def run(ctx: Context, rep) -> None:
                construct=f"self._{p} = {p}",
                message=f"constructor option `{p}` is kept for the epoch loop")
     # epoch: the native iterator is finite and re-created (C15.repeat)
+    from sa.rules.c02 import check_batch
+    check_batch(ctx, rep, "C19.batch")
+    rep.rule(
+        "C19.batch",
+        "unshuffled periodicity: the concurrent reader's batches are plain "
+        "consecutive islices of the (cycled) shard stream, mapped whole and "
+        "in order - no de-duplication or reordering inside a batch, which "
+        "would shift the phase of the cycle (same check as C02.batch)")
     from sa.rules.c15 import check_epoch
     check_epoch(ctx, rep, "C19.epoch")
     rep.rule(
